@@ -171,6 +171,53 @@ def validate_trace(module, cfg, trace_path, name, constants=None, timeout=1800, 
     return r, fails, drifts
 
 
+def qv_sharded(args, header, cases, wd, shards=8, timeout=3600, case_field="case"):
+    """Run a case-replaying harness command on contiguous shards of the cases in parallel processes; the
+    `case` index of every observation is shifted back to the global numbering.  Returns the observations,
+    shard after shard (each shard keeps the harness's own order)."""
+    from concurrent.futures import ThreadPoolExecutor
+    shards = max(1, min(shards, len(cases)))
+    size = (len(cases) + shards - 1) // shards
+    jobs = []
+    for k in range(shards):
+        part = cases[k * size:(k + 1) * size]
+        if not part:
+            continue
+        cp = os.path.join(wd, f"cases_{k}.ndjson")
+        write_ndjson(cp, ([header] if header is not None else []) + part)
+        jobs.append((k, cp, os.path.join(wd, f"obs_{k}.ndjson")))
+    with ThreadPoolExecutor(len(jobs)) as ex:
+        list(ex.map(lambda j: qv(args, stdin_path=j[1], stdout_path=j[2], timeout=timeout), jobs))
+    obs = []
+    for k, _, op in jobs:
+        for o in read_ndjson(op):
+            if case_field in o:
+                o[case_field] += k * size
+            obs.append(o)
+        os.remove(op)
+    return obs
+
+
+def validate_trace_chunked(module, cfg, recs, wd, name, chunk=20000, parallel=4, constants=None, timeout=3600, heap="6g"):
+    """Trace validation of a long list of independent records: TLC consumes them chunk by chunk (several
+    TLC processes side by side); judge indices are returned in the global numbering (1-based)."""
+    from concurrent.futures import ThreadPoolExecutor
+    parts = [(k, recs[k:k + chunk]) for k in range(0, len(recs), chunk)]
+
+    def one(p):
+        k, part = p
+        tp = os.path.join(wd, f"trace_{k}.ndjson")
+        write_ndjson(tp, part)
+        r, fails, drifts = validate_trace(module, cfg, tp, f"{name}_{k}", constants=constants, timeout=timeout, heap=heap)
+        os.remove(tp)
+        return r, [(i + k, j) for i, j in fails], [(i + k, j) for i, j in drifts]
+    with ThreadPoolExecutor(parallel) as ex:
+        res = list(ex.map(one, parts))
+    fails = [f for _, fs, _ in res for f in fs]
+    drifts = [d for _, _, ds in res for d in ds]
+    return (res[0][0] if res else None), fails, drifts
+
+
 def read_ndjson(path):
     with open(path) as f:
         return [json.loads(l) for l in f if l.strip()]
